@@ -20,6 +20,16 @@ from .url_args_generator import EndpointUrlArgsGenerator
 logger = logging.getLogger(__name__)
 
 
+def returns_async_iterator(signature_end: str) -> bool:
+    """Check whether a rendered method signature returns `AsyncIterator[...]` itself.
+
+    `signature_end` is the line that closes the signature, `) -> <return type>:`. Only a streaming method,
+    which is an async generator, returns `AsyncIterator[...]`; a return type that merely contains that text
+    (a model named `AsyncIteratorResult`, `List[AsyncIteratorResult]`) belongs to an ordinary coroutine.
+    """
+    return signature_end.partition(") -> ")[2].startswith("AsyncIterator[")
+
+
 class EndpointMethodGenerator:
     """
     Generates the Python code for a single endpoint method.
